@@ -470,8 +470,12 @@ def get_hint_pep_sign_ambiguous_or_none(hint: Hint) -> Optional[HintSign]:
         # types or callables to their identifying signs if that package is
         # recognized *OR* the empty dictionary otherwise (i.e., if the package
         # defining this hint is unrecognized).
+        #
+        # Note that some C-based callables (e.g., method descriptors like
+        # "str.join", slot wrappers like "int.__add__") define *NO*
+        # "__module__" dunder attribute, which is thus accessed safely.
         hint_basename_to_sign = HINT_MODULE_NAME_TO_HINT_BASENAME_TO_SIGN.get(
-            hint.__module__, FROZENDICT_EMPTY)
+            getattr(hint, '__module__', None), FROZENDICT_EMPTY)
 
         # Sign identifying this hint if this hint is identifiable by its
         # basename *OR* "None" otherwise.
